@@ -1,7 +1,14 @@
 //! Generators of IL values shared by several recorders.
+//!
+//! `function()` generates well-formed IL functions: consistent width per scalar name,
+//! well-sorted expressions, loads/stores of byte-multiple widths, and out-edges that are
+//! exclusive and exhaustive *by construction* (one unconditional edge; a complementary pair
+//! `g` / `g == 0`; or a three-way case split on a selector).  Any CFG shape can come out:
+//! loops, self-loops, empty blocks, blocks without successors, unreachable blocks (optional).
 
 use crate::Rng;
 use falcon::il;
+use falcon::il::Expression as E;
 use num_bigint::BigUint;
 
 pub const BIN_KINDS: [&str; 17] = [
@@ -15,4 +22,316 @@ pub fn constant(rng: &mut Rng, bits: usize) -> il::Constant {
 
 pub fn big(v: u64) -> BigUint {
     BigUint::from(v)
+}
+
+#[derive(Clone)]
+pub struct GenCfg {
+    pub max_blocks: usize,
+    pub max_ins: usize,
+    /// every scalar the function may mention (name, width)
+    pub scalars: Vec<il::Scalar>,
+    /// scalars suitable as guards/selectors (small widths)
+    pub control: Vec<il::Scalar>,
+    /// constant addresses that loads/stores use (plus small offsets)
+    pub mem_bases: Vec<u64>,
+    pub allow_mem: bool,
+    pub allow_div: bool,
+    pub allow_intrinsic: bool,
+    pub allow_branch: bool,
+    /// instruction addresses a Branch may target (filled by function())
+    pub unreachable_blocks: bool,
+    pub expr_depth: u32,
+    /// probability (percent) that an out-degree-2/3 block is generated
+    pub branchiness: u64,
+    /// widths of small constants are biased to tiny values when true (for explorations)
+    pub small_consts: bool,
+}
+
+impl GenCfg {
+    pub fn default_with(scalars: Vec<il::Scalar>) -> GenCfg {
+        let control = scalars.iter().filter(|s| s.bits() <= 3).cloned().collect();
+        GenCfg {
+            max_blocks: 5,
+            max_ins: 3,
+            scalars,
+            control,
+            mem_bases: vec![0x2000],
+            allow_mem: true,
+            allow_div: true,
+            allow_intrinsic: false,
+            allow_branch: false,
+            unreachable_blocks: false,
+            expr_depth: 2,
+            branchiness: 60,
+            small_consts: false,
+        }
+    }
+}
+
+fn konst(rng: &mut Rng, cfg: &GenCfg, w: usize) -> E {
+    if cfg.small_consts {
+        let v = match rng.below(6) {
+            0 => 0,
+            1 => 1,
+            2 => 2,
+            3 => rng.below(8),
+            4 => u64::MAX,
+            _ => rng.below(256),
+        };
+        let all = (BigUint::from(1u32) << w) - BigUint::from(1u32);
+        E::Constant(il::Constant::new_big(BigUint::from(v) & all, w))
+    } else {
+        E::Constant(constant(rng, w))
+    }
+}
+
+/// a well-sorted expression of width w over cfg.scalars
+pub fn expr(rng: &mut Rng, cfg: &GenCfg, w: usize, depth: u32) -> E {
+    let same: Vec<&il::Scalar> = cfg.scalars.iter().filter(|s| s.bits() == w).collect();
+    if depth == 0 || rng.chance(1, 4) {
+        // leaf
+        if !same.is_empty() && rng.chance(3, 4) {
+            return E::Scalar((*rng.pick(&same)).clone());
+        }
+        // a scalar of another width, converted
+        if !cfg.scalars.is_empty() && rng.chance(1, 2) {
+            let s = rng.pick(&cfg.scalars).clone();
+            let sw = s.bits();
+            let e = E::Scalar(s);
+            return if sw == w {
+                e
+            } else if sw < w {
+                if rng.bool() { E::zext(w, e).unwrap() } else { E::sext(w, e).unwrap() }
+            } else {
+                E::trun(w, e).unwrap()
+            };
+        }
+        return konst(rng, cfg, w);
+    }
+    let d = depth - 1;
+    match rng.below(20) {
+        0..=11 => {
+            let mut ops = vec!["add", "sub", "mul", "and", "or", "xor", "shl", "shr", "ashr"];
+            if cfg.allow_div {
+                ops.extend(["divu", "modu", "divs", "mods"]);
+            }
+            let op = *rng.pick(&ops);
+            let a = expr(rng, cfg, w, d);
+            let b = if ["shl", "shr", "ashr"].contains(&op) && rng.chance(1, 2) {
+                E::Constant(il::Constant::new_big(BigUint::from(rng.below(w as u64 + 2)) & ((BigUint::from(1u32) << w) - BigUint::from(1u32)), w))
+            } else {
+                expr(rng, cfg, w, d)
+            };
+            match op {
+                "add" => E::add(a, b),
+                "sub" => E::sub(a, b),
+                "mul" => E::mul(a, b),
+                "and" => E::and(a, b),
+                "or" => E::or(a, b),
+                "xor" => E::xor(a, b),
+                "shl" => E::shl(a, b),
+                "shr" => E::shr(a, b),
+                "ashr" => E::ashr(a, b),
+                "divu" => E::divu(a, b),
+                "modu" => E::modu(a, b),
+                "divs" => E::divs(a, b),
+                _ => E::mods(a, b),
+            }
+            .unwrap()
+        }
+        12..=14 if w == 1 => cond(rng, cfg, d),
+        15 | 16 => {
+            let c = cond(rng, cfg, d);
+            let a = expr(rng, cfg, w, d);
+            let b = expr(rng, cfg, w, d);
+            E::ite(c, a, b).unwrap()
+        }
+        17 if w > 1 => {
+            let from = rng.range(1, (w - 1) as u64) as usize;
+            let a = expr(rng, cfg, from, d);
+            if rng.bool() { E::zext(w, a).unwrap() } else { E::sext(w, a).unwrap() }
+        }
+        18 => {
+            let from = w + *rng.pick(&[1usize, 7, 8, 24, 32]);
+            E::trun(w, expr(rng, cfg, from, d)).unwrap()
+        }
+        _ => konst(rng, cfg, w),
+    }
+}
+
+/// a 1-bit expression
+pub fn cond(rng: &mut Rng, cfg: &GenCfg, depth: u32) -> E {
+    let ones: Vec<&il::Scalar> = cfg.scalars.iter().filter(|s| s.bits() == 1).collect();
+    if !ones.is_empty() && rng.chance(1, 3) {
+        return E::Scalar((*rng.pick(&ones)).clone());
+    }
+    let w = if cfg.scalars.is_empty() { 8 } else { rng.pick(&cfg.scalars).bits() };
+    let a = expr(rng, cfg, w, depth.min(1));
+    let b = if rng.chance(1, 2) { konst(rng, cfg, w) } else { expr(rng, cfg, w, depth.min(1)) };
+    match rng.below(4) {
+        0 => E::cmpeq(a, b),
+        1 => E::cmpneq(a, b),
+        2 => E::cmpltu(a, b),
+        _ => E::cmplts(a, b),
+    }
+    .unwrap()
+}
+
+fn address_expr(rng: &mut Rng, cfg: &GenCfg) -> E {
+    let base = *rng.pick(&cfg.mem_bases);
+    let off = rng.below(24);
+    let c = il::expr_const(base.wrapping_add(off), 64);
+    // sometimes index with a (zero-extended, masked) scalar so that the address is data dependent
+    if !cfg.scalars.is_empty() && rng.chance(1, 3) {
+        let s = rng.pick(&cfg.scalars).clone();
+        let sw = s.bits();
+        let e = E::Scalar(s);
+        let e64 = if sw == 64 { e } else if sw < 64 { E::zext(64, e).unwrap() } else { E::trun(64, e).unwrap() };
+        let masked = E::and(e64, il::expr_const(7, 64)).unwrap();
+        return E::add(c, masked).unwrap();
+    }
+    c
+}
+
+fn byte_width_scalars(cfg: &GenCfg) -> Vec<il::Scalar> {
+    cfg.scalars.iter().filter(|s| s.bits() % 8 == 0).cloned().collect()
+}
+
+pub fn operation(rng: &mut Rng, cfg: &GenCfg, branch_targets: &[u64]) -> il::Operation {
+    let bw = byte_width_scalars(cfg);
+    let r = rng.below(100);
+    if cfg.allow_mem && r < 15 {
+        let w = if !bw.is_empty() && rng.chance(3, 4) { rng.pick(&bw).bits() } else { *rng.pick(&[8usize, 16, 24, 32, 64, 128]) };
+        return il::Operation::store(address_expr(rng, cfg), expr(rng, cfg, w, cfg.expr_depth));
+    }
+    if cfg.allow_mem && r < 30 && !bw.is_empty() {
+        return il::Operation::load(rng.pick(&bw).clone(), address_expr(rng, cfg));
+    }
+    if r < 34 {
+        return il::Operation::nop();
+    }
+    if cfg.allow_intrinsic && r < 38 {
+        let (written, read) = match rng.below(3) {
+            0 => (None, None),
+            1 => (Some(vec![E::Scalar(rng.pick(&cfg.scalars).clone())]), Some(vec![E::Scalar(rng.pick(&cfg.scalars).clone())])),
+            _ => (Some(vec![]), Some(vec![])),
+        };
+        return il::Operation::intrinsic(il::Intrinsic::new("intr", "intr", vec![], written, read, vec![0x0f, 0x05]));
+    }
+    if cfg.allow_branch && r < 42 {
+        let t = if !branch_targets.is_empty() && rng.chance(9, 10) { *rng.pick(branch_targets) } else { 0xdead_0000 + rng.below(16) };
+        return il::Operation::branch(il::expr_const(t, 64));
+    }
+    let dst = rng.pick(&cfg.scalars).clone();
+    let src = if rng.chance(1, 6) {
+        // x = x op c : reads what it writes
+        let c = konst(rng, cfg, dst.bits());
+        match rng.below(3) {
+            0 => E::add(E::Scalar(dst.clone()), c),
+            1 => E::sub(E::Scalar(dst.clone()), c),
+            _ => E::xor(E::Scalar(dst.clone()), c),
+        }
+        .unwrap()
+    } else {
+        expr(rng, cfg, dst.bits(), cfg.expr_depth)
+    };
+    il::Operation::assign(dst, src)
+}
+
+/// Guards for an out-degree-k block: exclusive and exhaustive by construction.
+pub fn guards(rng: &mut Rng, cfg: &GenCfg, k: usize) -> Vec<Option<E>> {
+    match k {
+        0 => vec![],
+        1 => vec![None],
+        2 => {
+            let g = cond(rng, cfg, 1);
+            let ng = E::cmpeq(g.clone(), il::expr_const(0, 1)).unwrap();
+            if rng.bool() { vec![Some(g), Some(ng)] } else { vec![Some(ng), Some(g)] }
+        }
+        _ => {
+            // selector of at least 2 bits: == 0, == 1, 1 <u sel
+            let wide: Vec<&il::Scalar> = cfg.scalars.iter().filter(|s| s.bits() >= 2).collect();
+            let sel = if wide.is_empty() { expr(rng, cfg, 2, 1) } else { E::Scalar((*rng.pick(&wide)).clone()) };
+            let w = sel.bits();
+            vec![
+                Some(E::cmpeq(sel.clone(), il::expr_const(0, w)).unwrap()),
+                Some(E::cmpeq(sel.clone(), il::expr_const(1, w)).unwrap()),
+                Some(E::cmpltu(il::expr_const(1, w), sel).unwrap()),
+            ]
+        }
+    }
+}
+
+/// A random well-formed function.  Instruction addresses are 0x1000 + 4 * running index.
+pub fn function(rng: &mut Rng, cfg: &GenCfg, address: u64) -> il::Function {
+    let nb = rng.range(1, cfg.max_blocks as u64) as usize;
+    let mut g = il::ControlFlowGraph::new();
+    // instruction addresses are known up front so that Branch can target them
+    let mut counts = Vec::new();
+    let mut total = 0u64;
+    for b in 0..nb {
+        let n = if b > 0 && rng.chance(1, 8) { 0 } else { rng.range(1, cfg.max_ins as u64) };
+        counts.push(n);
+        total += n;
+    }
+    let targets: Vec<u64> = (0..total).map(|i| address + 4 * i).collect();
+    let mut next_addr = address;
+    for b in 0..nb {
+        let blk = g.new_block().unwrap();
+        for _ in 0..counts[b] {
+            match operation(rng, cfg, &targets) {
+                il::Operation::Assign { dst, src } => blk.assign(dst, src),
+                il::Operation::Store { index, src } => blk.store(index, src),
+                il::Operation::Load { dst, index } => blk.load(dst, index),
+                il::Operation::Branch { target } => blk.branch(target),
+                il::Operation::Intrinsic { intrinsic } => blk.intrinsic(intrinsic),
+                il::Operation::Nop { .. } => blk.nop(),
+            }
+            blk.instructions_mut().last_mut().unwrap().set_address(Some(next_addr));
+            next_addr += 4;
+        }
+    }
+    // edges
+    let reach_all = !cfg.unreachable_blocks;
+    for b in 0..nb {
+        let k = if rng.below(100) < cfg.branchiness {
+            if rng.chance(1, 4) { 3 } else { 2 }
+        } else if rng.chance(1, 6) && b > 0 {
+            0
+        } else {
+            1
+        };
+        let k = k.min(nb); // distinct tails needed (the graph has no parallel edges)
+        let mut tails: Vec<usize> = Vec::new();
+        // bias: make block b+1 a successor so that most blocks are reachable
+        if reach_all && b + 1 < nb && k > 0 {
+            tails.push(b + 1);
+        }
+        let mut guard = 0;
+        while tails.len() < k && guard < 50 {
+            let t = rng.below(nb as u64) as usize;
+            if !tails.contains(&t) {
+                tails.push(t);
+            }
+            guard += 1;
+        }
+        let gs = guards(rng, cfg, tails.len());
+        // shuffle tails a little so that the fall-through is not always the first guard
+        if tails.len() > 1 && rng.bool() {
+            tails.swap(0, 1);
+        }
+        for (t, c) in tails.iter().zip(gs.into_iter()) {
+            match c {
+                None => g.unconditional_edge(b, *t).unwrap(),
+                Some(c) => g.conditional_edge(b, *t, c).unwrap(),
+            }
+        }
+    }
+    g.set_entry(0).unwrap();
+    // an exit: some block without successors if there is one
+    let exits: Vec<usize> = (0..nb).filter(|b| g.successor_indices(*b).map(|s| s.is_empty()).unwrap_or(false)).collect();
+    if let Some(x) = exits.first() {
+        g.set_exit(*x).unwrap();
+    }
+    il::Function::new(address, g)
 }
